@@ -43,7 +43,9 @@ def candidates(prog):
             p["outs"] = [o]
             yield p
     # re-target the output to an earlier node
-    for nd in prog["nodes"][:-1]:
+    names = [m["name"] for m in prog["nodes"]]
+    first_out = min(names.index(o) for o in prog["outs"])
+    for nd in prog["nodes"][:first_out]:  # strictly earlier, so that this step cannot cycle
         if nd["name"] not in prog["outs"]:
             p = copy.deepcopy(prog)
             p["outs"] = [nd["name"]]
